@@ -36,7 +36,27 @@ func main() {
 	tier := flag.String("tier", "quick", "quick|thorough")
 	prop := flag.String("prop", "", "property id (C01..C20), comma list, or 'all'")
 	canaryOnly := flag.Bool("canary", false, "run only the canaries")
+	dumpFns := flag.Bool("dump-functions", false, "print the function inventory of -repo (tables/functions.json) and exit")
+	dumpCond := flag.Bool("dump-condatoms", false, "print the decision inputs per function of -repo (tables/condatoms.json) and exit")
 	flag.Parse()
+	if *dumpCond {
+		w, err := loadWorld(*repo)
+		if err != nil {
+			fmt.Fprintln(os.Stderr, err)
+			os.Exit(2)
+		}
+		os.Stdout.Write(w.dumpCondAtoms())
+		return
+	}
+	if *dumpFns {
+		w, err := loadWorld(*repo)
+		if err != nil {
+			fmt.Fprintln(os.Stderr, err)
+			os.Exit(2)
+		}
+		os.Stdout.Write(w.dumpFunctions())
+		return
+	}
 
 	if t := os.Getenv("VERIF_TIER"); t == "quick" || t == "thorough" {
 		*tier = t
@@ -96,6 +116,16 @@ func main() {
 	if err != nil {
 		fail(ids, *verif, "load failure: "+err.Error())
 	}
+	if err := w.loadBaseline(*verif); err != nil {
+		fail(ids, *verif, "tables/functions.json unreadable: "+err.Error())
+	}
+	nNew := 0
+	for k := range w.Funcs {
+		if w.isNewName(k) {
+			nNew++
+		}
+	}
+	w.stats["functions_new_since_review_inlined"] = nNew
 	tw, err := loadTemplates(w)
 	if err != nil {
 		fail(ids, *verif, "template load failure: "+err.Error())
